@@ -272,11 +272,15 @@ def _table(rows, width, start_index, fill_mode, fill_value=-999):
 
 def ugrid(ny=2, nx=3, *, split=(), merge=(), start_index=0, fill='auto', transposed=False,
           tables=(), edge_dimension='auto', coords_as='vars', face_coords=False, time=2, extra=True,
-          jitter=0.0, two_name='Two', face_dimension_attr=True, edge_transposed=False, mesh=None):
+          jitter=0.0, two_name='Two', face_dimension_attr=True, edge_transposed=False, mesh=None, edge_order='first-seen'):
     """tables: subset of {'edge_node','face_edge','edge_face','face_face'} to supply.
     fill: 'auto' (int with _FillValue when ragged, none otherwise) | 'nan' | 'int_fill'."""
     node_x, node_y, faces = mesh if mesh is not None else quad_tri_mesh(ny, nx, split=split, merge=merge, jitter=jitter)
     edge_list, face_edges, edge_faces, face_faces = mesh_tables(faces)
+    if edge_order == 'reverse':        # a file is free to number its edges as it likes
+        ne = len(edge_list)
+        edge_list, edge_faces = edge_list[::-1], edge_faces[::-1]
+        face_edges = [[ne - 1 - e for e in fe] for fe in face_edges]
     nface, nnode, nedge = len(faces), len(node_x), len(edge_list)
     maxn = max(len(f) for f in faces)
     fmode = {'auto': 'none', 'nan': 'nan', 'int_fill': 'int_fill'}[fill]
